@@ -864,7 +864,7 @@ impl LineRow {
     /// Step 1 of section 6.2.5.1
     fn apply_line_advance(&mut self, line_increment: i64) {
         if line_increment < 0 {
-            let decrement = -line_increment as u64;
+            let decrement = line_increment.unsigned_abs();
             if decrement <= self.line.0 {
                 self.line.0 -= decrement;
             } else {
